@@ -45,6 +45,18 @@ CHECKS["C12"] = {
     "assumptions": ["keys installed with SetSymmetricKey after a cleartext prefix exchange", _SAMPLING],
 }
 
+CHECKS["C15"] = {
+    "level": "exploration",
+    "technique": _TECH + ": hand-off (export, discard stream, import around a new conn on the same pipes) as a generated restart operation inside bidirectional traffic; blob truncations/corruptions enumerated",
+    "level_text": "Seeded exploration of traffic histories in which the hand-off is the crash/restart fault: at generated message boundaries one or both sides export the crypto state, the Stream object is discarded, and a new Stream is built from the blob around a fresh conn object attached to the same simulated pipes while the unaware peer keeps sending (single messages through three sender and two receiver APIs, concurrent bursts, chains of hand-offs). Oracles: reference list model in both directions, no receive/send error, the C12 reference codec opens every wire frame with one continuous counter sequence per direction (so a nonce reuse or counter slip across a hand-off is seen), export must be refused when unkeyed, before a protected frame went each way, with buffered unsent bytes, and inside a partially consumed message. Every truncation of a valid blob and 3 corruptions of every byte are enumerated: truncated/mis-tagged/wrong-version blobs must be rejected, other corruptions may fail but never deliver wrong data.",
+    "level_note": "Message-layer (message.Message) buffers are outside Stream's knowledge and outside the statement. Refusal at points where cedar is merely conservative (after EndMessage without StartMessage) is not judged. Tag/version are taken to be the first 6 bytes of the blob as documented at ExportCryptoState.",
+    "budget": {"quick": 25, "thorough": 900},
+    "rule": "a case is one generated traffic history with 0-6 hand-offs and unclean-export attempts (or one blob truncation/corruption); distinct = distinct event-log hash; non-trivial = a hand-off or blob fault fired or the scheduler had a choice.",
+    "real": _REAL_STREAM + ["stream.ExportCryptoState / NewStreamWithCryptoState"],
+    "stub": _SIM + ["fd passing (simnet Endpoint.Rewrap: new conn object on the same pipes)", "reference AES-GCM codec as wire monitor"],
+    "assumptions": ["keys installed with SetSymmetricKey after a cleartext preamble", _SAMPLING],
+}
+
 CHECKS["C02"] = {
     "level": "fault_enumeration",
     "technique": _TECH + ": frame-aware on-path adversary between two keyed real streams; single faults enumerated, multi-fault combinations seeded",
